@@ -3,22 +3,26 @@
    may crash up to MaxCrashes times, anywhere (also during recovery).                     *)
 EXTENDS TMCommitPipeline, Json, SequencesExt
 
-CONSTANTS MaxHeight, MaxCrashes, PlanId, EmitSched, MaxAppRollback
+CONSTANTS MaxHeight, MaxCrashes, PlanId, EmitSched, MaxAppRollback, MaxTamper
 
 VARIABLES s, act
 vars == <<s, act>>
 
 \* chain plans (TLC cfg files cannot hold sequences): #txs per height, heights with validator
 \* updates, heights with consensus-param updates, RetainHeight returned by Commit(h)
-Plans == << [txs |-> <<2, 1, 0, 1, 0>>, vu |-> <<1>>, pu |-> <<2>>, retain |-> <<0, 0, 2, 0, 0>>],
-            [txs |-> <<1, 0, 2, 1, 0>>, vu |-> <<2>>, pu |-> <<1>>, retain |-> <<0, 1, 0, 3, 0>>],
-            [txs |-> <<0, 0, 0, 0, 0>>, vu |-> << >>, pu |-> << >>, retain |-> <<0, 0, 0, 0, 0>>],
-            [txs |-> <<2, 1, 0, 1, 0>>, vu |-> <<1>>, pu |-> <<2>>, retain |-> <<0, 0, 0, 0, 0>>] >>
+\* hashc: does the application hash change with every commit (TRUE) or only with transactions (FALSE)
+Plans == << [txs |-> <<2, 1, 0, 1, 0>>, vu |-> <<1>>, pu |-> <<2>>, retain |-> <<0, 0, 2, 0, 0>>, hashc |-> TRUE],
+            [txs |-> <<1, 0, 2, 1, 0>>, vu |-> <<2>>, pu |-> <<1>>, retain |-> <<0, 1, 0, 3, 0>>, hashc |-> TRUE],
+            [txs |-> <<0, 0, 0, 0, 0>>, vu |-> << >>, pu |-> << >>, retain |-> <<0, 0, 0, 0, 0>>, hashc |-> TRUE],
+            [txs |-> <<2, 1, 0, 1, 0>>, vu |-> <<1>>, pu |-> <<2>>, retain |-> <<0, 0, 0, 0, 0>>, hashc |-> TRUE],
+            [txs |-> <<2, 1, 0, 1, 0>>, vu |-> <<1>>, pu |-> <<2>>, retain |-> <<0, 0, 0, 0, 0>>, hashc |-> FALSE] >>
 Cfg == [maxh |-> MaxHeight, txs |-> Plans[PlanId].txs, vu |-> Plans[PlanId].vu, pu |-> Plans[PlanId].pu,
-        retain |-> Plans[PlanId].retain]
+        retain |-> Plans[PlanId].retain, hashc |-> Plans[PlanId].hashc]
+
+Abs(x) == IF x < 0 THEN -x ELSE x
 
 Init == /\ s = InitState(Cfg)
-        /\ act = [name |-> "Init", mode |-> "none", h |-> 0, i |-> 0, rb |-> 0]
+        /\ act = [name |-> "Init", mode |-> "none", h |-> 0, i |-> 0, rb |-> 0, fwd |-> 0, rbs |-> 0, rss |-> 0]
         /\ (EmitSched => TLCSet(1, {}))
 
 Step  == /\ ~Terminal(s)
@@ -26,9 +30,16 @@ Step  == /\ ~Terminal(s)
          /\ act' = Label(s)
 Crash == /\ Crashable(s)
          /\ s.crashes < MaxCrashes
-         /\ \E n \in 0..MaxAppRollback :
-              /\ n <= s.app_h
-              /\ s' = RollbackOf(CrashOf(s, [Label(s) EXCEPT !.rb = n]), n)
+         \* with the restart the application may have lost n commits (MaxAppRollback) and, with
+         \* MaxTamper > 0, an operator may have put back an older block store (db blocks older) and/or
+         \* state store (ds) with the WAL and key state of that copy, or the app may be fw blocks
+         \* ahead: every (store, state, app) triple whose cursors are at most 2 apart
+         /\ \E n \in 0..MaxAppRollback, db \in 0..MaxTamper, ds \in 0..MaxTamper, fw \in 0..MaxTamper :
+              LET nb == s.bs_h - db  ns == s.ss_st.h - ds  na == s.app_h + fw - n IN
+              /\ n <= s.app_h /\ (n = 0 \/ fw = 0)
+              /\ (db > 0 => nb >= 1) /\ (ds > 0 => ns >= 1 /\ s.ss_saved)
+              /\ ((db > 0 \/ ds > 0 \/ fw > 0) => Abs(nb - ns) <= 2 /\ Abs(na - ns) <= 2 /\ Abs(na - nb) <= 2)
+              /\ s' = TamperOf(CrashOf(s, [Label(s) EXCEPT !.rb = n, !.fwd = fw, !.rbs = db, !.rss = ds]), db, ds, fw - n)
          /\ act' = [Label(s) EXCEPT !.name = "Crash"]
 \* the node has committed MaxHeight; with EmitSched (and -workers 1) the crash schedule of the
 \* behaviour is collected in a TLC register and written out by the POSTCONDITION PostSched
@@ -36,8 +47,12 @@ DoneStutter == /\ s.pc = "Done"
                /\ (EmitSched => TLCSet(1, TLCGet(1) \cup {s.sched}))
                /\ UNCHANGED vars
 PostSched == JsonSerialize("c05_sched.json", SetToSeq(TLCGet(1)))
+\* a node that refused to start (or stalled): with EmitSched its schedule is collected too
+RefusedStutter == /\ Terminal(s) /\ s.pc # "Done" /\ EmitSched
+                  /\ TLCSet(1, TLCGet(1) \cup {s.sched})
+                  /\ UNCHANGED vars
 
-Next == Step \/ Crash \/ DoneStutter
+Next == Step \/ Crash \/ DoneStutter \/ RefusedStutter
 Spec == Init /\ [][Next]_vars /\ WF_vars(Step)
 
 PcKnown             == s.pc \in AllPcs
